@@ -50,22 +50,6 @@ type sCase struct {
 	Bytes []int  `json:"bytes"`
 }
 
-func toBytes(a []int) []byte {
-	b := make([]byte, len(a))
-	for i, v := range a {
-		b[i] = byte(v)
-	}
-	return b
-}
-
-func toInts(b []byte) []int {
-	a := make([]int, len(b))
-	for i, v := range b {
-		a[i] = int(v)
-	}
-	return a
-}
-
 // canonical text of one expected token (what the comparison is made on)
 func canonTok(t sTok) string {
 	switch t.K {
